@@ -595,6 +595,14 @@ pub fn run() -> i32 {
                 }
             }
         }
+        for case in 0..=9u8 {
+            crate::sym::load(vec![vec![case]]);
+            n += 1;
+            if std::panic::catch_unwind(|| crate::node::c20_builtin_override()).is_err() {
+                c11_bad += 1;
+                eprintln!("SELFTEST-FAIL: c20_builtin_override: case {}", case);
+            }
+        }
         for code in 0..=5u8 {
             crate::sym::load(vec![vec![code]]);
             n += 1;
